@@ -49,6 +49,7 @@ class ImperialistCompetitiveOptimization(OptimizationAbstract):
                 i += 1
 
         self.__countries = countries
+        self.__empires = []
 
         # Create empires
         costs = np.array([np.sum(countries[i].cost) for i in range(0, len(countries))])
